@@ -631,8 +631,14 @@ func replayExecVector(raw []byte, st *Stats, wk *worker, prop string) {
 	}
 	plan, perr := graphql.PlanQuery(&b.Schema, doc, v.OpName)
 	if perr != nil {
-		st.Mismatch(Mismatch{What: prop + " PlanQuery failed on a valid document: " + perr.Error(), Detail: pr.Text, Vector: raw})
-		return
+		// legal only when the request selects no operation (missing / ambiguous / unknown name)
+		for ri := range v.Runs {
+			if !v.Runs[ri].Exp.ReqErr {
+				st.Mismatch(Mismatch{What: prop + " PlanQuery failed on a valid document: " + perr.Error(), Detail: pr.Text, Vector: raw})
+				return
+			}
+		}
+		plan = nil
 	}
 	for ri := range v.Runs {
 		run := &v.Runs[ri]
@@ -644,11 +650,11 @@ func replayExecVector(raw []byte, st *Stats, wk *worker, prop string) {
 		if !account("Execute", ri, runExecute(b, doc, v.OpName, vars, newRunFor(b, &v, outs, pr))) {
 			return
 		}
-		if !account("ExecutePlan", ri, runPlan(b, plan, vars, newRunFor(b, &v, outs, pr))) {
+		if plan != nil && !account("ExecutePlan", ri, runPlan(b, plan, vars, newRunFor(b, &v, outs, pr))) {
 			return
 		}
 	}
-	if prop == "C20" {
+	if prop == "C20" && plan != nil {
 		// reuse history: the same plan executed again for every run, in two rounds, each time
 		// with a different root value and context and with resolvers that mutate their Args map;
 		// a stale root, a shared args map or a captured context shows up in a later call
@@ -673,7 +679,7 @@ func replayExecVector(raw []byte, st *Stats, wk *worker, prop string) {
 			}
 		}
 	}
-	if len(v.Runs) > 1 {
+	if len(v.Runs) > 1 && plan != nil {
 		run := &v.Runs[0]
 		if !account("ExecutePlan(reuse)", 0, runPlan(b, plan, varsMap(run.Inputs), newRunFor(b, &v, v.Outs[run.Oi-1], pr))) {
 			return
